@@ -6,30 +6,35 @@ env = dict(os.environ, GOFLAGS="-mod=mod", GOPROXY="off", GOSUMDB="off", GOTOOLC
 def sh(cmd, cwd=None):
     r = subprocess.run(cmd, shell=True, cwd=cwd, env=env, stdout=subprocess.PIPE, stderr=subprocess.STDOUT, text=True)
     return r.returncode, r.stdout
+REPO = os.environ.get("VERIF_REPO_DIR", "/repo")
+HERE = os.path.dirname(os.path.abspath(__file__))
+if REPO != "/repo":
+    # background mode on a snapshot: point this copy of the harness at the snapshot of the repository
+    print(sh("go mod edit -replace github.com/go-kid/ioc=%s" % REPO, HERE + "/harness"))
 allc = "--all-checks" in sys.argv
 tier = sys.argv[sys.argv.index("--tier")+1] if "--tier" in sys.argv else "quick"
-claimed = [c["property_id"] for c in json.load(open("/verif/MANIFEST.json"))["checks"]]
-assert sh("git -C /repo status --short")[1].strip() == "", "repo dirty"
-head = sh("git -C /repo rev-parse --short HEAD")[1].strip()
+claimed = [c["property_id"] for c in json.load(open(HERE + "/MANIFEST.json"))["checks"]]
+assert sh("git -C " + REPO + " status --short")[1].strip() == "", "repo dirty"
+head = sh("git -C " + REPO + " rev-parse --short HEAD")[1].strip()
 rows = []
-for name in sorted(os.listdir("/verif/seeded")):
-    d = "/verif/seeded/" + name
+for name in sorted(os.listdir(HERE + "/seeded")):
+    d = HERE + "/seeded/" + name
     if not os.path.exists(d + "/patch.diff"): continue
     prop = name.split("-")[0]
-    rc, out = sh("git -C /repo apply --3way %s/patch.diff || git -C /repo apply %s/patch.diff" % (d, d))
-    sh("git -C /repo reset -q")
+    rc, out = sh("git -C %s apply --3way %s/patch.diff || git -C %s apply %s/patch.diff" % (REPO, d, REPO, d))
+    sh("git -C " + REPO + " reset -q")
     row = {"seed": name, "property": prop, "applies": rc == 0, "results": {}}
     if rc == 0:
-        b, _ = sh("go build ./...", "/repo")
+        b, _ = sh("go build ./...", REPO)
         row["builds"] = b == 0
         checks = claimed if allc else [prop]
         for c in checks:
-            t0 = time.time(); rc2, out2 = sh("./check %s --tier %s" % (c, tier), "/verif")
+            t0 = time.time(); rc2, out2 = sh("./check %s --tier %s" % (c, tier), HERE)
             row["results"][c] = rc2
-    sh("git -C /repo checkout -- . && git -C /repo clean -fdq unittest/seeded")
+    sh("git -C %s checkout -- . ; git -C %s clean -fdq unittest/seeded" % (REPO, REPO))
     rows.append(row); print(name, row["applies"], row["results"], flush=True)
-json.dump({"repo_head": head, "tier": tier, "rows": rows}, open("/verif/seeded/RESULTS.json", "w"), indent=1)
-with open("/verif/seeded/RESULTS.md", "w") as f:
+json.dump({"repo_head": head, "tier": tier, "rows": rows}, open(HERE + "/seeded/RESULTS.json", "w"), indent=1)
+with open(HERE + "/seeded/RESULTS.md", "w") as f:
     f.write("# Seeded changes vs. checks (repo HEAD %s, tier %s)\n\nexit 1 = VIOLATION reported, 0 = silent, 2 = inconclusive\n\n| seed | breaks | own check | other checks that also report |\n|---|---|---|---|\n" % (head, tier))
     for r in rows:
         own = r["results"].get(r["property"], "-")
